@@ -84,9 +84,15 @@ def sh(cmd, timeout, cwd=None, env=None):
 
 
 class CoqLock:
+    """Exclusive for whatever writes into coq/ (regenerated models, make); shared for whatever only reads compiled files (case shards,
+    Print Assumptions, coqchk) - so that a long evaluation of one check does not serialise the others."""
+
+    def __init__(self, shared=False):
+        self.shared = shared
+
     def __enter__(self):
-        self.f = open(COQ / '.lock', 'w')
-        fcntl.flock(self.f, fcntl.LOCK_EX)
+        self.f = open(COQ / '.lock', 'a')
+        fcntl.flock(self.f, fcntl.LOCK_SH if self.shared else fcntl.LOCK_EX)
         return self
 
     def __exit__(self, *a):
@@ -200,7 +206,7 @@ class Run:
     # which generated models the property files of each property import (directly or through the tie files)
     NEEDS = {'C01': ['formulas'], 'C02': ['formulas'], 'C03': [], 'C04': ['skeleton'], 'C05': ['blocks'], 'C06': ['blocks'], 'C07': ['formulas'],
              'C08': [], 'C09': ['skeleton'], 'C10': ['skeleton'], 'C11': ['formulas'], 'C12': ['formulas'], 'C13': ['blocks'],
-             'C14': ['blocks', 'formulas'], 'C15': [], 'C16': [], 'C17': ['blocks'], 'C18': ['skeleton'], 'C19': ['cli_surface'], 'C20': ['blocks']}
+             'C14': ['blocks', 'formulas'], 'C15': ['blocks'], 'C16': [], 'C17': ['blocks'], 'C18': ['skeleton', 'blocks'], 'C19': ['cli_surface'], 'C20': ['blocks']}
 
     def regenerate(self, needs=None):
         """Re-run the translators on /repo's current working tree (coq/gen/*.v are rewritten only when they change).  A translator that
@@ -209,8 +215,12 @@ class Run:
             return True
         self._regenerated = True
         needs = self.NEEDS.get(self.pid, []) if needs is None else needs
-        with CoqLock():
-            rc, out = sh([PY, str(VERIF / 'translate' / 'regen.py')], 120, cwd=VERIF)
+        # dry run first (shared lock): in the steady state the generated files are already what the source says and nothing is written
+        with CoqLock(shared=True):
+            rc, out = sh([PY, str(VERIF / 'translate' / 'regen.py')], 120, cwd=VERIF, env=dict(os.environ, REGEN_DRY='1'))
+        if 'CHANGED' in out:
+            with CoqLock():
+                rc, out = sh([PY, str(VERIF / 'translate' / 'regen.py')], 120, cwd=VERIF)
         self.checker_cmds.append('translate/regen.py  (regenerates coq/gen/*.v from /repo)')
         self.trusted.append('translators translate/{skeleton,cli_surface,formulas,blocks}.py (python ast / click introspection, fail-closed)')
         failed = [n for n in needs if re.search(rf'^{n} FAILED', out, re.M) or (rc != 0 and not re.search(rf'^{n} ok', out, re.M))]
@@ -225,9 +235,16 @@ class Run:
         self.regenerate()
         self.hygiene()
         targets = [prop_file + 'o'] + [t + 'o' if t.endswith('.v') else t for t in extra_targets]
-        with CoqLock():
-            ensure_makefile()
-            rc, out = sh(['make', '-j', '8'] + targets, timeout, cwd=COQ)
+        # `make -q` under the shared lock: when everything is up to date nothing is written and no exclusive lock is needed
+        with CoqLock(shared=True):
+            fresh = (COQ / 'Makefile').exists() and (COQ / '.filelist').exists() and \
+                (COQ / '.filelist').read_text() == '\n'.join(sorted(str(p.relative_to(COQ)) for p in (COQ / 'theories').rglob('*.v'))
+                                                             + sorted(str(p.relative_to(COQ)) for p in (COQ / 'gen').glob('*.v')))
+            rc, out = sh(['make', '-q'] + targets, 120, cwd=COQ) if fresh else (1, '')
+        if rc != 0:
+            with CoqLock():
+                ensure_makefile()
+                rc, out = sh(['make', '-j', '8'] + targets, timeout, cwd=COQ)
         self.checker_cmds.append('make -C coq ' + ' '.join(targets))
         src = strip_comments((COQ / prop_file).read_text()) if (COQ / prop_file).exists() else ''
         self.obligation_names = re.findall(r'^\s*(?:Theorem|Corollary)\s+(\w+)', src, re.M)
@@ -237,24 +254,44 @@ class Run:
                 kind='proof-break', what=f'coq build of {prop_file} failed' + (f' in {m.group(1)}:{m.group(2)}' if m else ''),
                 detail=out[-3000:]))
             return False
-        # second pass on the property file alone to capture Print Assumptions
-        with CoqLock():
-            rc, out = sh(['coqc'] + COQ_FLAGS + [prop_file], 600, cwd=COQ)
-        self.checker_cmds.append('coqc ' + prop_file + '  (Print Assumptions under every theorem)')
+        # second pass: Print Assumptions for EVERY theorem of the property file (also those the file itself does not print), from a small
+        # generated file that imports the compiled property module
+        CASES.mkdir(parents=True, exist_ok=True)
+        afn = CASES / f'Assumptions_{self.pid}_{os.getpid()}.v'
+        afn.write_text(f'From HV Require Import Properties.{Path(prop_file).stem}.\n'
+                       + ''.join(f'Print Assumptions {n}.\n' for n in self.obligation_names))
+        with CoqLock(shared=True):
+            rc, out = sh(['coqc'] + COQ_FLAGS + [str(afn.relative_to(COQ))], 600, cwd=COQ)
+        for suffix in ('.v', '.vo', '.vok', '.vos', '.glob'):
+            q = afn.with_suffix(suffix)
+            if q.exists():
+                q.unlink()
+        aux = afn.parent / ('.' + afn.stem + '.aux')
+        if aux.exists():
+            aux.unlink()
+        self.checker_cmds.append(f'coqc gen/cases/Assumptions_{self.pid}.v  (Print Assumptions of every theorem of {prop_file})')
         if rc != 0:
-            self.broken.append(dict(kind='proof-break', what=f'coqc {prop_file} failed', detail=out[-3000:]))
+            self.broken.append(dict(kind='proof-break', what=f'Print Assumptions pass over {prop_file} failed', detail=out[-3000:]))
             return False
-        closed = len(re.findall(r'Closed under the global context', out))
-        ax_blocks = re.findall(r'Axioms:\n((?:.+\n?)+?)(?=\n\S|\Z)', out)
-        names = set()
-        for blk in ax_blocks:
-            names.update(re.findall(r'^(\S[\w.\']*)\s*:', blk, re.M))
-        self.axioms = dict(closed_theorems=closed, axioms=sorted(names))
-        n_print = len(re.findall(r'Print Assumptions', src))
+        # one answer per theorem, in order: "Closed under the global context" or "Axioms:" followed by its lines
+        answers = re.split(r'(?m)^(?=Closed under the global context|Axioms:)', out)
+        answers = [a for a in answers if a.startswith(('Closed under', 'Axioms:'))]
+        per_thm, names = {}, set()
+        for n, a in zip(self.obligation_names, answers):
+            if a.startswith('Closed'):
+                per_thm[n] = []
+            else:
+                ax = re.findall(r'^(\S[\w.\']*)\s*$|^(\S[\w.\']*)\s*:', a[len('Axioms:'):], re.M)
+                ax = [x[0] or x[1] for x in ax]
+                per_thm[n] = sorted(set(ax))
+                names.update(ax)
+        closed = sum(1 for v in per_thm.values() if not v)
+        self.axioms = dict(theorems=len(self.obligation_names), answered=len(answers), closed_theorems=closed, axioms=sorted(names),
+                           theorems_using_primitives_or_axioms={n: v for n, v in per_thm.items() if v})
         self.discharged = len(self.obligation_names)
-        if n_print < len(self.obligation_names):
-            self.notes.append(f'{len(self.obligation_names) - n_print} theorem(s) without Print Assumptions')
-        allowed = re.compile(r'^(Coq\.|PrimFloat|Uint63|FloatAxioms|FloatOps|SpecFloat|functional_extensionality'
+        if len(answers) != len(self.obligation_names):
+            self.notes.append(f'Print Assumptions answered for {len(answers)} of {len(self.obligation_names)} theorems')
+        allowed = re.compile(r'^(Coq\.|PrimFloat|PrimInt63|Uint63|FloatAxioms|FloatOps|SpecFloat|functional_extensionality'
                              r'|Classical|Eqdep|proof_irrelevance|JMeq|ClassicalDedekindReals|FunctionalExtensionality|sig_forall_dec|sig_not_dec)')
         bad = [a for a in names if not allowed.match(a) and not re.match(r'^(of_uint63|opp|abs|add|sub|mul|div|ltb|leb|eqb|normfr_mantissa|frshiftexp|ldshiftexp|classify|sqrt|compare|next_up|next_down|of_Z|to_Z|float|int|lsl|lsr|land|lor|lxor|head0|tail0|addc|subc|mulc|diveucl|mod|eqb_correct|ltb_spec|leb_spec)', a)]
         self.extra['print_assumptions'] = self.axioms
@@ -266,7 +303,7 @@ class Run:
         return True
 
     def coqchk(self, lib: str, timeout=1500):
-        with CoqLock():
+        with CoqLock(shared=True):
             rc, out = sh(['coqchk', '-silent', '-o', '-Q', 'theories', 'HV', '-Q', 'gen', 'HVgen', lib], timeout, cwd=COQ)
         self.checker_cmds.append(f'coqchk -o {lib}')
         tail = out[-1500:]
@@ -332,7 +369,7 @@ class Run:
         failing, nt, errs, unevaluated = [], 0, [], []
         jobs = [(str(k // shard), list(range(k, min(k + shard, len(cases))))) for k in range(0, len(cases), shard)]
         rnd = 0
-        with CoqLock():
+        with CoqLock(shared=True):
             while jobs:
                 results = run_batch(jobs, timeout)
                 jobs, rnd = [], rnd + 1
